@@ -351,6 +351,7 @@ func doReplay(p *props.Property, path string) int {
 		// until the detector reports (it never reports a race that is not there).
 		attempts = 40
 	}
+	padZero = ff.Class == "hang"
 	for a := 0; a < attempts; a++ {
 		o, diverged = replayOnce(p, ff.Choices)
 		if diverged != "" || (o.Violation != nil && o.Violation.Class == ff.Class) {
@@ -391,6 +392,7 @@ func doReplay(p *props.Property, path string) int {
 }
 
 var exhausted bool
+var padZero bool
 
 func replayOnce(p *props.Property, cs []chooser.Choice) (o *props.Outcome, diverged string) {
 	defer func() {
@@ -406,6 +408,8 @@ func replayOnce(p *props.Property, cs []chooser.Choice) (o *props.Outcome, diver
 			panic(r)
 		}
 	}()
-	o = p.Run(chooser.NewList(cs, true), props.NewStats())
+	l := chooser.NewList(cs, true)
+	l.PadZero = padZero
+	o = p.Run(l, props.NewStats())
 	return o, ""
 }
